@@ -1106,8 +1106,13 @@ class Gen(object):
             op = '==' if r.random() < 0.85 else '!='
             return Bin(op, f, lit) if r.random() < 0.8 else Bin(op, lit, f)
         for _ in range(r.randint(3, 6)):
-            names = r.sample(['F', 'F', 'S', 'N'], r.choice([1, 1, 2, 2, 3]))
-            names = [n for k, n in enumerate(names) if n not in names[:k]]
+            # (in a third of the clauses one attribute may be compared twice, with the same or with another literal: a
+            # conjunction that no value satisfies selects nothing)
+            if r.random() < 0.35:
+                names = r.sample(['F', 'F', 'S', 'S', 'N', 'N'], r.choice([2, 2, 3]))
+            else:
+                names = r.sample(['F', 'F', 'S', 'N'], r.choice([1, 1, 2, 2, 3]))
+                names = [n for k, n in enumerate(names) if n not in names[:k]]
             e = eq(names[0])
             for n in names[1:]:
                 e = Bin('and', e, eq(n))
